@@ -1,5 +1,7 @@
 /- C11 invariants, part 11: who holds the write lock — the steps that matter -/
 import SemaModel.C11.Inv10
+set_option linter.unusedSimpArgs false
+set_option linter.unusedVariables false
 namespace Sema.C11
 
 theorem not_mem_eraseIdx_of_keysNodup {l : List (Name × ObjId)} (h : keysNodup l) (k : Nat) (hk : k < l.length) :
